@@ -21,20 +21,25 @@ Seqs(n) == UNION { [1..k -> Scripts] : k \in 0..n }
 \* hook: the OnPanic hook of the router that serves the nested dispatch ("none": no hook - then no script panics);
 \* other: the nested dispatch is served by ANOTHER router (B.HandleContext(c) from a handler of A) with the same global
 \* middleware and B's own hook; A's hook must stay out of it
-HookOf(h) == IF h = "none" THEN None ELSE << <<"in">>, <<"status", 500>>, <<"write", 1, "full">> >>
-Init == \E g \in Seqs(MaxG), inner \in Seqs(MaxInner) \ {<<>>}, p \in DOMAIN Pre, t \in 0..1, hk \in {"none", "status"}, o \in BOOLEAN :
+\* a hook that answers with a status only: the recover path of the NESTED dispatch commits it, whatever the calling handler
+\* does with the status afterwards (Post)
+HookOf(h) == CASE h = "none" -> None
+               [] h = "status" -> << <<"in">>, <<"status", 500>>, <<"write", 1, "full">> >>
+               [] h = "statusonly" -> << <<"in">>, <<"status", 503>> >>
+Post == [ none |-> <<>>, status |-> << <<"status", 204>> >> ]
+Init == \E g \in Seqs(MaxG), inner \in Seqs(MaxInner) \ {<<>>}, p \in DOMAIN Pre, t \in 0..1, hk \in {"none", "status", "statusonly"}, o \in BOOLEAN, q \in DOMAIN Post :
           /\ Len(inner) >= 1 + t
           /\ (hk = "none" => \A i \in 1..Len(g) : g[i] # "P") /\ (hk = "none" => \A i \in 1..Len(inner) : inner[i] # "P")
           /\ (\A i \in 1..Len(g) : g[i] # "P")                 \* (panics only inside the nested chain)
           /\ (o => hk # "none")
           /\ (t = 1 => \A i \in 1..Len(inner) : inner[i] # "P")     \* (panics only when the re-dispatcher is the last handler of its chain)
-          /\ c = [g |-> g, inner |-> inner, pre |-> p, tail |-> t, hook |-> hk, other |-> o]
+          /\ c = [g |-> g, inner |-> inner, pre |-> p, tail |-> t, hook |-> hk, other |-> o, post |-> q]
 Next == FALSE /\ c' = c
 
 G == [i \in 1..Len(c.g) |-> Lib[c.g[i]]]
 B == Len(c.g) + 1 + c.tail
 TailH == IF c.tail = 1 THEN << Lib["N"] >> ELSE <<>>
-Redispatcher == << <<"in">> >> \o Pre[c.pre] \o << <<"redispatch", B, HookOf(c.hook)>>, <<"out">> >>
+Redispatcher == << <<"in">> >> \o Pre[c.pre] \o << <<"redispatch", B, HookOf(c.hook)>> >> \o Post[c.post] \o << <<"out">> >>
 Chain == G \o <<Redispatcher>> \o TailH \o G \o [i \in 1..Len(c.inner) |-> Lib[c.inner[i]]]
 OnErr == << <<"in">>, <<"status", 500>>, <<"out">> >>
 D == IdealDispatch(Chain, OnErr, HookOf(c.hook))
